@@ -215,9 +215,11 @@ def make_sampler(kind, posterior, start, rng, grad=None, temperature=1.0, bounds
     start = np.asarray(start, float)
     d = start.size
     if kind in ("gibbs", "metropolis", "pca"):
-        w = np.asarray(widths, float) if widths is not None else np.full(d, 1.0)
         cls = {"gibbs": GibbsChain, "metropolis": MetropolisChain, "pca": PcaChain}[kind]
-        kw = dict(posterior=posterior, start=start.copy(), widths=w.copy(), temperature=temperature, display_progress=display_progress)
+        kw = dict(posterior=posterior, start=start.copy(), temperature=temperature, display_progress=display_progress)
+        if not (isinstance(widths, str) and widths == "default"):       # "default": leave the proposal widths to the library
+            w = np.asarray(widths, float) if widths is not None else np.full(d, 1.0)
+            kw["widths"] = w.copy()
         if kind == "pca" and bounds is not None:
             kw["bounds"] = bounds
         ch = cls(**kw)
